@@ -55,8 +55,8 @@ def parse_length(attr_value: str) -> typing.Tuple[float, str]:
 
 
 _FAMILIES_ESCAPED_CHAR = re.compile(r"\\(.)")
-_SINGLE_QUOTE_PATTERN = "(?:'(?P<single_quote>(.+?)(?<!\\\\))')"
-_DOUBLE_QUOTE_PATTERN = "(?:\"(?P<double_quote>(.+?)(?<!\\\\))\")"
+_SINGLE_QUOTE_PATTERN = "(?:'(?P<single_quote>(?:\\\\.|[^'\\\\])+)')"
+_DOUBLE_QUOTE_PATTERN = "(?:\"(?P<double_quote>(?:\\\\.|[^\"\\\\])+)\")"
 _NO_QUOTE_PATTERN = "(?P<no_quote>(?:\\\\.|[^'\", ])(?:\\\\.|[^'\",])*)"
 
 _FONT_FAMILY_PATTERN = re.compile(
@@ -104,7 +104,7 @@ def serialize_font_family(font_family: typing.Tuple[typing.Union[str, styles.Gen
     if isinstance(family, styles.GenericFontFamilyType):
       return family.value
     
-    return '"' + family.replace('"', r'\"') + '"'
+    return '"' + family.replace('\\', r'\\').replace('"', r'\"') + '"'
 
   return ", ".join(map(_serialize_one_family, font_family))
 
